@@ -327,6 +327,17 @@ def all_allowed(fam, exp, obs, ref):
     return len(obs) == len(ref) and all(allowed(fam, exp, v, o, r) for v, (o, r) in enumerate(zip(obs, ref)))
 
 
+def n_variants(fam, exp):
+    """Number of observations run_case returns for one case of the family."""
+    if fam in ("ptstr", "ptmode", "pttrace", "delta", "deltax", "deltatrace"):
+        return 2
+    if fam == "cdelta":
+        return 3 if exp is not None else 2
+    if fam == "blocks":
+        return len(CHUNKS)
+    return 1
+
+
 def nontrivial(obs, ref):
     """Rule: not (every variant fails in the implementation and in the reference)."""
     return any(o[0] == "v" for o in obs) or any(o[0] == "v" for o in ref)
